@@ -534,6 +534,34 @@ class PlaceInterp(RecInterp):
                 return super().val(e, env)
             raise
         recv = deref(raw)
+        if isinstance(recv, str) and name in ('truncate', 'clear', 'push', 'push_str', 'pop', 'insert_str', 'insert') and peel(rnode).get('k') == 'path' and peel(rnode).get('res') == 'Local' \
+                and isinstance(env.get(peel(rnode)['path']), str):
+            # a `String` held in a local: the methods that change it in place
+            nm = peel(rnode)['path']
+            a = [deref(self.val(x, env)) for x in e.get('args', [])]
+            cur = env[nm]
+            as_text = lambda x: x if isinstance(x, str) else chr(x)
+            if name == 'truncate' and len(a) == 1 and isinstance(a[0], int):
+                env[nm] = cur.encode()[:a[0]].decode(errors='strict') if a[0] < len(cur.encode()) else cur
+                return ()
+            if name == 'clear' and not a:
+                env[nm] = ''
+                return ()
+            if name in ('push', 'push_str') and len(a) == 1 and isinstance(a[0], (str, int)):
+                env[nm] = cur + as_text(a[0])
+                return ()
+            if name == 'pop' and not a:
+                env[nm] = cur[:-1]
+                return ('ctor', SOME, (ord(cur[-1]),)) if cur else ('ctor', NONE)
+            if name in ('insert_str', 'insert') and len(a) == 2 and isinstance(a[0], int) and isinstance(a[1], (str, int)):
+                raw_ = cur.encode()
+                env[nm] = (raw_[:a[0]] + as_text(a[1]).encode() + raw_[a[0]:]).decode()
+                return ()
+        if isinstance(recv, bool) and name in ('then', 'then_some') and len(e.get('args', [])) == 1:
+            if not recv:
+                return ('ctor', NONE)
+            arg = self.val(e['args'][0], env)
+            return ('ctor', SOME, (self.apply(arg, []) if name == 'then' else arg,))
         if name == 'take' and not e.get('args') and isinstance(recv, tuple) and len(recv) >= 2 and recv[0] == 'ctor' and recv[1].startswith('core::option::Option::'):
             # Option::take on a place: a field of a modelled struct (through any reference to it) or a slot
             r = peel(rnode)
